@@ -258,6 +258,15 @@ def check_case(case, ctx):
         ctx.check(val == want, "differs-from-standalone-rater", desc,
                   f"step {n}: rate_quality -> {val!r}, get_rater(...).rate(datasets=curve) -> {want!r} "
                   f"(fit hash {idnt.fit_properties.get('hash')})")
+        # the feature selection is a set: listing the same names in another order gives the same rating
+        if op["names"] is not None and len(op["names"]) >= 2:
+            op2 = dict(op, names=list(reversed(op["names"])))
+            op3 = dict(op, names=sorted(op["names"]))
+            with ctx.no_raise("rate-quality-raises", dict(desc, reordered=True)) as guard:
+                v2, v3 = rate(idnt, op2, ctx), rate(idnt, op3, ctx)
+            if guard.ok:
+                ctx.check(v2 == val and v3 == val, "rating-depends-on-name-order", desc,
+                          f"names {op['names']} -> {val!r}, reversed -> {v2!r}, sorted -> {v3!r}")
         # repeated call
         with ctx.no_raise("rate-quality-raises", dict(desc, repeat=True)) as guard:
             val2 = rate(idnt, op, ctx)
